@@ -35,7 +35,7 @@ ASSUMPTIONS = [
     "data_ids are truthy",
 ]
 
-ROUTES = ["remove:keep_children:with_clones", "add", "add:explicit-id", "append_child", "prepend_child", "prepend_sibling", "append_sibling", "add_node", "add_node:deep",
+ROUTES = ["copy_from2", "copy_from2:children", "add_node:cross-tree", "tree2.copy_to", "set_data:data:with_clones", "remove:keep_children:with_clones", "add", "add:explicit-id", "append_child", "prepend_child", "prepend_sibling", "append_sibling", "add_node", "add_node:deep",
           "copy_to", "copy_to:children", "add_tree", "move", "remove:keep_children", "rename", "set_data:data", "set_data:id",
           "set_data:with_clones"]
 
@@ -102,6 +102,8 @@ def collision_ops(eng):
                 for y in grp:
                     if y is not x and isinstance(c.data_id, (str, int)):
                         out.append(("set_data:with_clones", ["set_data", ref(y), None, c.data_id, True, False]))
+                        if default_id:
+                            out.append(("set_data:data:with_clones", ["set_data", ref(y), lab, None, True, False]))
                         break
     # un-nesting a whole clone group (also nested in each other)
     if not eng.typed:
@@ -111,6 +113,20 @@ def collision_ops(eng):
                 continue
             seen.add(m.data_id)
             out.append(("remove:keep_children:with_clones", ["remove", ref(m), True, True]))
+    # cross-tree copies from the second tree
+    pre2 = eng.model2.preorder()
+    for p in parents:
+        ids_p = {c.data_id for c in p.children}
+        if not ids_p:
+            continue
+        for j, k in enumerate(pre2):
+            if k.data_id in ids_p:
+                out.append(("copy_from2", ["copy_from2", j, ref(p), True, None, bool(j % 2)]))
+                out.append(("add_node:cross-tree", ["add_node", ref(p), 1, j, bool(j % 2), None]))
+            if any(ch.data_id in ids_p for ch in k.children):
+                out.append(("copy_from2:children", ["copy_from2", j, ref(p), False, None, bool(j % 2)]))
+        if any(t.data_id in ids_p for t in eng.model2.root.children):
+            out.append(("tree2.copy_to", ["tree2_copy_to", ref(p), None]))
     # add(tree): tree2's top nodes vs children of some parent
     tops2 = {t.data_id for t in eng.model2.root.children}
     for p in parents:
